@@ -608,6 +608,230 @@ def g_check(tier, res_violation_sink, okx):
 
 
 # ------------------------------------------------------------------------------------------------
+# H. the (multiplier, shift) pairs IN FORCE at every pooling / elementwise operation of compiled multi-operator
+#    networks (register snapshots of the emitted command stream)
+H_FAMS = [("pow2_rescale", 6), ("ew_dag", 4), ("diamond", 3), ("multi_input", 2)]
+H_ACCS = [["--accelerator-config", "ethos-u55-128"], ["--accelerator-config", "ethos-u65-512"], ["--accelerator-config", "ethos-u65-256"]]
+K_OFM_SCALE, K_OPA_SCALE, K_OPB_SCALE = 1024 + 36, 1024 + 37, 1024 + 38
+OP_POOL, OP_ELEMENTWISE = 5, 6
+
+
+def h_parse_events(flat):
+    """flat output of the extracted Npu.decode_stream -> [(code, param, {register: value})] of the operation events"""
+    if not flat or flat[0] != 1:
+        return None
+    i, n, evs = 1, len(flat), []
+    while i < n:
+        t = flat[i]
+        if t == 1:
+            cnt = flat[i + 3]
+            kv = flat[i + 4:i + 4 + 2 * cnt]
+            evs.append((flat[i + 1], flat[i + 2], dict(zip(kv[0::2], kv[1::2]))))
+            i += 4 + 2 * cnt
+        elif t == 3:
+            i += 2
+        else:
+            i += 3
+    return evs
+
+
+def h_walk(words):
+    """fallback register-file walk in Python (same keys as Npu.decode_stream): used when build/velaverif is unavailable"""
+    regs, evs, i = {}, [], 0
+    while i < len(words):
+        w = words[i]
+        code, param = w & 0x3FF, w >> 16
+        if (w >> 14) & 1:
+            regs[1024 + code] = words[i + 1] + (param << 32)
+            i += 2
+            continue
+        if code in (2, 3, 5, 6, 16):
+            evs.append((code, param, dict(regs)))
+        elif code >= 256:
+            regs[code] = param
+        i += 1
+    return evs
+
+
+def h_pair(regs, key):
+    v = regs.get(key, 0)
+    return (v & 0xFFFFFFFF, (v >> 32) & 0xFFFF)
+
+
+def h_elementwise_why(kind, a, c, o, bits, opa, opb, ofm):
+    """ADD / SUB / MUL: the registers in force against the reference derivation; None or a reason"""
+    if kind == "MUL":
+        refd, reff = tfl_mul_ref(a, c, o)
+        if ofm[0] and ofm[1] <= 62 and not (same_value(ofm, refd) or same_value(ofm, reff)):
+            return "OFM_SCALE %r, reference %r (double) / %r (float)" % (ofm, refd, reff)
+        return None
+    if opb[0] == 0:             # advanced scaling: only the operand with the smaller scale is rescaled
+        ls = 20 if bits == 8 else 15
+        t1, t2, to = tfl_add_ref(a, c, o, ls)
+        tin = t1 if a < c else (t2 if c < a else t1)
+        if opa[0] and opa[1] + ls <= 62 and not same_value(opa, tin, ls):
+            return "OPA_SCALE %r, reference input multiplier %r (left shift %d)" % (opa, tin, ls)
+        if ofm[0] and ofm[1] <= 62 and not same_value(ofm, to):
+            return "OFM_SCALE %r, reference output multiplier %r" % (ofm, to)
+        return None
+    to = tfl_qm(2.0 * max(a, c) / (65536.0 * o))     # simplified scaling (equal input scales)
+    half = 1 << 15 if bits == 8 else 1 << 14
+    k = 0 if bits == 8 else 1
+    if a != c:
+        return "simplified scaling (OPB_SCALE %r) with different input scales" % (opb,)
+    if opa[0] != half or opb[0] != half:
+        return "OPA/OPB_SCALE %r %r, expected %d" % (opa, opb, half)
+    if ofm[0] and ofm[1] + k <= 62 and not same_value((ofm[0], ofm[1] + k), to):
+        return "OFM_SCALE %r, reference output multiplier %r" % (ofm, to)
+    return None
+
+
+def h_check(tier, okx):
+    """-> (evals, dist, diffs, bads)"""
+    import os
+    import shutil
+    import numpy as np
+    import compiles
+    import artefacts
+    import netgen
+    okv, vlog = vlib.build_extraction()
+    reps = 6 if tier == "thorough" else 1
+    jobs = []
+    for rep in range(reps):
+        for fam, n in H_FAMS:
+            for i in range(n):
+                jobs.append({"family": fam, "seed": "c09h-%d-%d-%d" % (vlib.seed(), rep, i), "args": H_ACCS[(i + rep) % len(H_ACCS)],
+                             "capture": True})
+    results = compiles.run_all(jobs, timeout=300)
+    dist = {"networks": len(jobs), "decoder": "Npu.decode_stream (extracted)" if okv else "python register walk (build/velaverif unavailable)",
+            "operations_judged": {}, "operations_not_judged": {}, "unmapped_networks": [], "same_multiplier_other_shift": 0}
+    evals, diffs, bads = 0, [], []
+    f32 = lambda v: float(np.float32(v))
+    pool_cases, pool_where, q_cases, q_where = [], [], [], []
+
+    def skip(why):
+        dist["operations_not_judged"][why] = dist["operations_not_judged"].get(why, 0) + 1
+
+    def judged(what):
+        dist["operations_judged"][what] = dist["operations_judged"].get(what, 0) + 1
+
+    def report(cls, job, r, net, co, regs, why, extra):
+        if any(b_[0] == cls for b_ in bads):
+            return
+        rdir = os.path.join(vlib.ROOT, "replay")
+        os.makedirs(rdir, exist_ok=True)
+        src = os.path.join(r["job"]["out_dir"], "model.tflite")
+        rp = os.path.join(rdir, "C09-net-%s-%s.tflite" % (job["family"], job["seed"]))
+        try:
+            shutil.copyfile(src, rp)
+        except OSError:
+            rp = src
+        name = co["cmd"].get("primary_op_name")
+        bads.append((cls, {"artefact": "scale registers in force", "family": job["family"], "seed": job["seed"], "operator_output": name},
+                     dict({"network": rp, "vela_args": job["args"], "net_desc": net.desc, "operator_output": name,
+                           "OFM_SCALE": h_pair(regs, K_OFM_SCALE), "OPA_SCALE": h_pair(regs, K_OPA_SCALE),
+                           "OPB_SCALE": h_pair(regs, K_OPB_SCALE), "reason": why}, **extra),
+                     "compiled %s/%s, operation writing %s: %s" % (job["family"], job["seed"], name, why)))
+
+    for job, r in zip(jobs, results):
+        a = artefacts.load(r) if r.get("status") == "ok" else None
+        if not a or not a["npu"] or not a.get("capture") or len(a["capture"].get("streams", [])) != len(a["npu"]):
+            dist["unmapped_networks"].append("%s/%s:%s" % (job["family"], job["seed"], r.get("status")))
+            continue
+        net = netgen.generate(job["family"], job["seed"])
+        src = {o["outputs"][0].name: o for o in net.ops if o["outputs"]}
+        words = [[int(x) for x in n_["words"]] for n_ in a["npu"]]
+        if okv:
+            evss = [h_parse_events(o) for o in models.run("decode_stream", words)]
+        else:
+            evss = [h_walk(w) for w in words]
+        for evs, stream in zip(evss, a["capture"]["streams"]):
+            cops = stream["ops"]
+            cls_of = {2: "NpuConv2DOperation", 3: "NpuConvDepthWiseOperation", 5: "NpuPoolingOperation", 6: "NpuElementWiseOperation",
+                      16: "NpuDmaOperation"}
+            if evs is None or len(evs) != len(cops) or any(cls_of.get(e[0]) != co["cls"] for e, co in zip(evs, cops)):
+                dist["unmapped_networks"].append("%s/%s:operation list" % (job["family"], job["seed"]))
+                continue
+            prev = {}
+            for (code, param, regs), co in zip(evs, cops):
+                if code not in (OP_POOL, OP_ELEMENTWISE):
+                    continue
+                ofm, opa, opb = h_pair(regs, K_OFM_SCALE), h_pair(regs, K_OPA_SCALE), h_pair(regs, K_OPB_SCALE)
+                if prev.get("ofm") and prev["ofm"][0] == ofm[0] and prev["ofm"][1] != ofm[1]:
+                    dist["same_multiplier_other_shift"] += 1
+                prev["ofm"] = ofm
+                api, cmd = co["api"], co.get("cmd") or {}
+                so = src.get(cmd.get("primary_op_name"))
+                act = (api.get("activation") or {}).get("op_type")
+                if so is None:
+                    skip("operation made by the compiler (no source operator of that name)")
+                    continue
+                if act not in (None, "NONE_OR_RELU") or api.get("rescale") is not None:
+                    skip("fused lookup-table activation / explicit rescale")
+                    continue
+                kind = so["kind"]
+                ins = [t for t in so["inputs"] if t is not None]
+                y = so["outputs"][0]
+                if y.dtype not in ("int8", "uint8", "int16") or any(t.scale is None for t in ins) or y.scale is None:
+                    skip("unquantised / 32-bit operands")
+                    continue
+                bits = 16 if ins[0].dtype == "int16" else 8
+                evals += 1
+                extra = {"source_operator": kind, "input_scales": [f32(t.scale) for t in ins], "output_scale": f32(y.scale)}
+                if kind == "QUANTIZE" and code == OP_POOL and cmd.get("original_type", "").endswith("Quantize"):
+                    si, s_o = f32(ins[0].scale), f32(y.scale)
+                    if si == s_o:
+                        skip("QUANTIZE with equal scales")
+                        continue
+                    t = tfl_qm(si / s_o)                         # quantize.cc: double(input scale) / double(output scale)
+                    judged("QUANTIZE")
+                    q_cases.append(decomp(si / s_o))
+                    q_where.append((job, co, ofm))
+                    if t[0] and not (31 - t[1] > 62) and not same_value(ofm, t):
+                        report("inforce-QUANTIZE", job, r, net, co, regs,
+                               "requantisation %r -> %r: OFM_SCALE in force %r, reference QuantizeMultiplier(s_in/s_out) = %r i.e. (%d, %d)"
+                               % (si, s_o, ofm, t, t[0], 31 - t[1]), extra)
+                elif kind == "AVERAGE_POOL_2D" and code == OP_POOL and cmd.get("original_type", "").endswith("AvgPool"):
+                    pad = api.get("padding") or {}
+                    k = api.get("kernel") or {}
+                    if any(pad.get(x, 0) for x in ("top", "left", "bottom", "right")) or f32(ins[0].scale) != f32(y.scale):
+                        skip("padded or rescaling average pool")
+                        continue
+                    n = int(k.get("width", 1)) * int(k.get("height", 1))
+                    judged("AVERAGE_POOL_2D")
+                    pool_cases.append((n, 0))
+                    pool_where.append((job, co, ofm))
+                    lo, hi = {"uint8": (0, 255), "int8": (-128, 127), "int16": (-32768, 32767)}[y.dtype]
+                    acc = pool_first_failure(n, ofm[0], ofm[1], lo, hi, "full" if y.dtype != "int16" else "top") if ofm[1] < 64 else 0
+                    if acc is not None and not (y.dtype == "int16" and n > 32768):
+                        report("inforce-AVERAGE_POOL_2D", job, r, net, co, regs,
+                               "%dx%d average pool: OFM_SCALE in force %r, accumulator %d gives %d, round-half-up division gives %d"
+                               % (k.get("height", 1), k.get("width", 1), ofm, acc, hw_scale(acc, ofm[0], ofm[1]), (2 * acc + n) // (2 * n)), extra)
+                elif kind in ("ADD", "SUB", "MUL") and code == OP_ELEMENTWISE and len(ins) == 2 and \
+                        cmd.get("original_type", "").endswith(kind.capitalize()):
+                    judged(kind)
+                    why = h_elementwise_why(kind, f32(ins[0].scale), f32(ins[1].scale), f32(y.scale), bits, opa, opb, ofm)
+                    if why:
+                        report("inforce-" + ("MUL" if kind == "MUL" else "ADDSUB"), job, r, net, co, regs, "%s: %s" % (kind, why), extra)
+                else:
+                    evals -= 1
+                    skip("operator kind %s not covered" % kind)
+    # the registers in force against the extracted model of the functions that derived them
+    if okx:
+        for (job, co, ofm), o in zip(pool_where, models.run("pooling_scale", pool_cases, exe_name=EXE) if pool_cases else []):
+            if o[0] != 1 or [ofm[0], ofm[1]] != o[1:3]:
+                diffs.append(("pool_scale (OFM_SCALE in force, %s/%s)" % (job["family"], job["seed"]),
+                              {"operator_output": co["cmd"].get("primary_op_name")}, list(ofm), o))
+        for (job, co, ofm), o in zip(q_where, models.run("quantise_scale", q_cases, exe_name=EXE) if q_cases else []):
+            if [ofm[0], ofm[1]] != o:
+                diffs.append(("q_scale (OFM_SCALE in force, %s/%s)" % (job["family"], job["seed"]),
+                              {"operator_output": co["cmd"].get("primary_op_name")}, list(ofm), o))
+    if not okv:
+        dist["decoder_build_log_tail"] = vlog[-300:]
+    return evals, dist, diffs, bads
+
+
+# ------------------------------------------------------------------------------------------------
 class _Emit:
     """stands in for CommandStreamEmitter: records the last write of each scale register"""
 
@@ -1061,6 +1285,18 @@ def run(tier):
         nontrivial.add(("packed", t_, n_))
     dist["compiled_networks(packed scale records)"] = g_dist
     lap('G')
+
+    # ---------------------------------------------------------------------------------------------
+    # H. the scale registers in force at every pooling / elementwise operation of compiled multi-operator networks
+    h_evals, h_dist, h_diffs, h_bads = h_check(tier, okx)
+    evals += h_evals
+    diffs += h_diffs
+    for cls, k, d, w in h_bads:
+        note_bad(cls, k, d, w)
+    for t_, n_ in h_dist["operations_judged"].items():
+        nontrivial.add(("inforce", t_, n_))
+    dist["compiled_networks(scale registers in force)"] = h_dist
+    lap('H')
 
     # ---------------------------------------------------------------------------------------------
     res.cov.update({
